@@ -54,7 +54,7 @@ REQUIRED_THEOREMS = ["reregistration_replaces", "observe_strictly_increasing", "
                      "deregistration_invariants_init", "stale_entry_keeps_wakeup", "clean_entry_holds_latest",
                      "latest_eventually_notified_run", "fair_when_acknowledged", "fair_when_non", "wake_holds_initially",
                      "fair_when_first_stale", "latest_eventually_notified_first_stale", "observe_strictly_increasing_run_init",
-                     "no_notification_after_session_loss_run'"]
+                     "no_notification_after_session_loss_run_any"]
 RULE = ("event histories (8..90 events + optional fair tail) over 1..3 observable resources (default / NOTIFY_CON / NOTIFY_NON / "
         "NOTIFY_NON_ALWAYS, Observe counter started at 0, mid-range, and just below 2^23 / 2^24 so that it wraps) and 1..4 real "
         "clients: register / re-register (same token, other token same query, other query) / Observe=1 cancel / plain GET with CON "
